@@ -53,33 +53,41 @@ type Effect struct {
 }
 
 type Contract struct {
-	Func      string
-	Props     []string
-	Mode      string
-	Requires  []*Clause
-	Ensures   []*Clause
-	Loops     map[int]*LoopSpec
-	Fresh     []*FreshVar
-	Subst     map[string]ast.Expr
-	SubstSrc  map[string]string
-	Inline    bool
-	Pure      bool
-	Trusted   bool
-	Modifies  []string
-	Effects   []*Effect
-	Line      int
-	NoSafety  bool                 // do not emit implicit safety obligations (used for spec helpers)
-	Callbacks map[string]*Contract // contracts for func-typed params
-	Notes     []string
-	Lemma     bool // pure lemma: no body, requires ==> ensures checked as a formula
-	LemmaVars []QVar
-	MaxPaths  int
+	Func       string
+	Props      []string
+	Mode       string
+	Requires   []*Clause
+	Ensures    []*Clause
+	Loops      map[int]*LoopSpec
+	Fresh      []*FreshVar
+	Subst      map[string]ast.Expr
+	SubstSrc   map[string]string
+	Inline     bool
+	Pure       bool
+	Trusted    bool
+	Modifies   []string
+	Effects    []*Effect
+	Line       int
+	NoSafety   bool                 // do not emit implicit safety obligations (used for spec helpers)
+	Callbacks  map[string]*Contract // contracts for func-typed params
+	Notes      []string
+	Lemma      bool // pure lemma: no body, requires ==> ensures checked as a formula
+	LemmaVars  []QVar
+	MaxPaths   int
+	MergeExits bool
+	Uses       []string // quantified callee clauses to assume at call sites: "callee.clause" or "callee.*"
 }
 
 type UFDecl struct {
 	Name   string
 	Params []QVar
 	Ret    string
+}
+
+type PredDecl struct {
+	Name   string
+	Params []QVar
+	Body   ast.Expr
 }
 
 type GhostField struct {
@@ -94,6 +102,8 @@ type ContractFile struct {
 	Axioms      []*Clause
 	Assumptions []string // free-text list of assumptions scanned from "assume"/"trusted"/"axiom"
 	PropsOf     map[string][]string
+	defs        map[string][]string
+	Preds       map[string]*PredDecl
 }
 
 var reName = regexp.MustCompile(`^([A-Za-z_][A-Za-z0-9_.\-]*):\s+(.*)$`)
@@ -291,6 +301,39 @@ func (cf *ContractFile) parseOne(path string) error {
 		}
 		items = append(items, item{body, i + 1})
 	}
+	// templates: "define NAME" ... "end" record items; "include NAME" replays them
+	{
+		var out []item
+		var defName string
+		defs := cf.defs
+		if defs == nil {
+			defs = map[string][]string{}
+			cf.defs = defs
+		}
+		for _, it := range items {
+			kw, rest, _ := strings.Cut(it.text, " ")
+			switch {
+			case kw == "define":
+				defName = strings.TrimSpace(rest)
+				defs[defName] = nil
+			case kw == "end" && defName != "":
+				defName = ""
+			case defName != "":
+				defs[defName] = append(defs[defName], it.text)
+			case kw == "include":
+				body, ok := defs[strings.TrimSpace(rest)]
+				if !ok {
+					return fmt.Errorf("%s:%d: unknown template %q", path, it.line, rest)
+				}
+				for _, t := range body {
+					out = append(out, item{t, it.line})
+				}
+			default:
+				out = append(out, it)
+			}
+		}
+		items = out
+	}
 	var cur *Contract
 	var curCb *Contract
 	target := func() *Contract {
@@ -345,6 +388,36 @@ func (cf *ContractFile) parseOne(path string) error {
 				}
 			}
 			cf.UFs[d.Name] = d
+		case "pred":
+			// pred name(a T, b U) = EXPR
+			l, r, ok := strings.Cut(rest, " = ")
+			if !ok {
+				return fail(fmt.Errorf("pred needs NAME(params) = EXPR"))
+			}
+			i := strings.Index(l, "(")
+			j := strings.LastIndex(l, ")")
+			if i < 0 || j < i {
+				return fail(fmt.Errorf("bad pred decl"))
+			}
+			d := &PredDecl{Name: strings.TrimSpace(l[:i])}
+			if ps := strings.TrimSpace(l[i+1 : j]); ps != "" {
+				for _, p := range strings.Split(ps, ",") {
+					f := strings.Fields(p)
+					if len(f) != 2 {
+						return fail(fmt.Errorf("bad pred param %q", p))
+					}
+					d.Params = append(d.Params, QVar{f[0], f[1]})
+				}
+			}
+			e, err := parser.ParseExpr(rewriteSpecSyntax(r))
+			if err != nil {
+				return fail(err)
+			}
+			d.Body = e
+			if cf.Preds == nil {
+				cf.Preds = map[string]*PredDecl{}
+			}
+			cf.Preds[d.Name] = d
 		case "ghostfield":
 			// ghostfield Struct.field type
 			f := strings.Fields(rest)
@@ -394,12 +467,16 @@ func (cf *ContractFile) parseOne(path string) error {
 					cf.Assumptions = append(cf.Assumptions, fmt.Sprintf("free ensures on %s: %s", c.Func, cl.Src))
 				}
 				c.Ensures = append(c.Ensures, cl)
+			case "use":
+				c.Uses = append(c.Uses, strings.Fields(strings.ReplaceAll(rest, ",", " "))...)
 			case "inline":
 				c.Inline = true
 			case "pure":
 				c.Pure = true
 			case "nosafety":
 				c.NoSafety = true
+			case "mergeexits":
+				c.MergeExits = true
 			case "maxpaths":
 				c.MaxPaths, _ = strconv.Atoi(rest)
 			case "trusted":
@@ -564,6 +641,32 @@ func (cl *Clause) inProp(c *Contract, p string) bool {
 	}
 	for _, x := range cl.Props {
 		if x == p {
+			return true
+		}
+	}
+	return false
+}
+
+// quantified reports whether the clause contains a quantifier.
+func (cl *Clause) quantified() bool {
+	if len(cl.QVars) > 0 {
+		return true
+	}
+	q := false
+	ast.Inspect(cl.Expr, func(n ast.Node) bool {
+		if c, ok := n.(*ast.CallExpr); ok {
+			if id, ok := c.Fun.(*ast.Ident); ok && (id.Name == "all" || id.Name == "exists" || id.Name == "allref") {
+				q = true
+			}
+		}
+		return !q
+	})
+	return q
+}
+
+func (c *Contract) usesClause(callee, clause string) bool {
+	for _, u := range c.Uses {
+		if u == callee+"."+clause || u == callee+".*" || u == "*" {
 			return true
 		}
 	}
